@@ -88,8 +88,11 @@ claim("C20", "Lean 4 proofs of locality (frame), finality of classical verdicts 
       NOTE_COMMON + " First-order: C20_fol_call_local / C20_fol_pass_local / C20_fol_local (no table outside a descendant-closed set of formulae changes "
       "under any calls of formulae inside it, incl. grounding propagation through partially quantified sub-formulae and the early exit of a query); "
       "run_c20_fol ties them to infer(source=) and set_query+infer_query from predicates, connectives and quantifiers (observed calls inside the "
-      "sub-graph, tables outside identical, nothing tighter than the full run). Verdict finality and restricted<=full are theorems for propositional "
-      "theories; for first-order theories they are checked by the oracle.", "DESIGN.md §6 C20")
+      "sub-graph, tables outside identical, nothing tighter than the full run). Verdict finality is a theorem for quantifier-free first-order "
+      "theories too (C20_fol_verdict_final, Props/C20Fol.lean: a stored row that reads exactly TRUE or FALSE keeps those bounds under any further "
+      "calls, given a model of the ground theory inside the bounds -- from C05_fol_plain and C02_sound); restricted<=full is a theorem for "
+      "propositional theories and checked by the oracle for first-order ones; re-arming a query (set_query twice, facts revised in between) is "
+      "judged against a fresh model on the implementation.", "DESIGN.md §6 C20, §11.7")
 claim("C14", "Lean 4 proofs about the table model (reads of absent groundings, row creation at world defaults, axiom invariant) + differential correspondence of store and first-order programs",
       "Theorems C14_get_missing / C14_query_pure / C14_query_unknown (an absent grounding reads as the world default and reading writes nothing), "
       "C14_addg_new_row / _keeps / _keys / _only_world / _read_unchanged and C14_groundings_only_world / _read_unchanged (every row a join, propagation "
@@ -119,9 +122,12 @@ claim("C16", "Lean 4 proof of history independence of the session model + differ
       "against the first-order model (sweep counts deliberately not compared).",
       NOTE_COMMON + " First-order: C16_fol_data_untouched / C16_fol_reset_after_inference / C16_fol_reset_after_infer / C16_fol_reset_reads_data "
       "(Lemmas/FolReset.lean): no first-order call sequence touches data, created rows carry the world default as data, and reset_bounds() after any "
-      "inference reads exactly as reset_bounds() before it. That the RERUN reproduces the first run is NOT a theorem and is false in two listed classes: "
+      "inference reads exactly as reset_bounds() before it; C16_fol_reset_is_fresh_plus_rows (table by table, what reset_bounds() returns after "
+      "inference is the reset start state followed by world-default rows for the groundings inference discovered: the whole trace a run leaves) and "
+      "C16_fol_reset_exact_of_no_growth / C16_fol_rerun_equal_of_no_growth (when no grounding was discovered the rerun is identical, tables and "
+      "amounts). That the RERUN reproduces the first run in general is NOT a theorem and is false in two listed classes: "
       "known findings D11 (contradictory first-order data) and D14 (quantifier whose instance set grows), replayed on every run and matched only when the "
-      "Lean model reproduces the same history dependence on that program (model_reproduces); oracles: rerun comparison, reset oracle, query-trace oracle.", "DESIGN.md §6 C16")
+      "Lean model reproduces the same history dependence on that program (model_reproduces); oracles: rerun comparison (also after flush() + a second episode of data), reset oracle, query-trace oracle.", "DESIGN.md §6 C16, §11.7")
 claim("C02", "Lean 4 proof that every first-order step is sound w.r.t. every model of the ground instantiation AND never tighter than any assignment closed under the ground steps, in particular the propositional engine's fixpoint on the ground instantiation (induction over call sequences, both join branches) + ground-instance differential oracle",
       "Theorems C02_sound_call / C02_sound / C02_sound_infer (for every quantifier-free first-order KB, weights >= 0, alpha <= 1: any interpretation "
       "v : formula x grounding -> [0,1] that satisfies the truth-function equation of every formula at every grounding and lies inside every stored "
